@@ -96,36 +96,42 @@ def _encodable(lit: str):
 
 
 def _write_classes(d, lits):
-    """lits: list of source texts (each expected to be one Java expression of type String)"""
+    """lits: list of source texts (each expected to be one Java expression of type String), one per line.
+    Returns (number of classes, {(class number, line number): position in lits})."""
     nclass = 0
+    where = {}
     for base in range(0, len(lits), PER_CLASS):
         chunk = lits[base:base + PER_CLASS]
-        parts = [f"public class B{nclass} {{\n"]
+        lines = [f"public class B{nclass} {{"]
         nm = 0
         for mb in range(0, len(chunk), PER_METHOD):
-            parts.append(f"  public static String[] get{nm}() {{ return new String[] {{\n")
-            parts.append(",\n".join(chunk[mb:mb + PER_METHOD]))
-            parts.append("\n  }; }\n")
+            lines.append(f"  public static String[] get{nm}() {{ return new String[] {{")
+            part = chunk[mb:mb + PER_METHOD]
+            for k, lit in enumerate(part):
+                lines.append(lit + ("," if k + 1 < len(part) else ""))
+                where[(nclass, len(lines))] = base + mb + k
+            lines.append("  }; }")
             nm += 1
-        parts.append(f"  public static int count() {{ return {nm}; }}\n}}\n")
+        lines.append(f"  public static int count() {{ return {nm}; }}")
+        lines.append("}")
         with open(os.path.join(d, f"B{nclass}.java"), "w", encoding="utf-8", newline="") as f:
-            f.write("".join(parts))
+            f.write("\n".join(lines) + "\n")
         nclass += 1
     with open(os.path.join(d, "Main.java"), "w") as f:
         f.write(MAIN)
-    return nclass
+    return nclass, where
 
 
 def _javac(d, nclass, timeout):
     files = [f"B{k}.java" for k in range(nclass)] + ["Main.java"]
     try:
-        p = subprocess.run(["javac", "-encoding", "UTF-8", "-nowarn", "-Xmaxerrs", "5", "-J-Xss64m", "-d", d] + files,
+        p = subprocess.run(["javac", "-encoding", "UTF-8", "-nowarn", "-Xmaxerrs", "60", "-J-Xss64m", "-d", d] + files,
                            cwd=d, capture_output=True, text=True, timeout=timeout)
     except subprocess.TimeoutExpired:
         raise ToolFailure("javac timed out")
     except FileNotFoundError:
         raise ToolFailure("javac is not installed")
-    return p.returncode == 0, (p.stdout + p.stderr)[-1500:]
+    return p.returncode == 0, p.stdout + p.stderr
 
 
 def _java(d, nclass, timeout):
@@ -159,38 +165,49 @@ def java_read(lits, strings=None, timeout=1500):
     def attempt(idx):
         d = tempfile.mkdtemp(prefix="c23-")
         try:
-            n = _write_classes(d, [lits[i] for i in idx])
+            n, where = _write_classes(d, [lits[i] for i in idx])
             ok, log = _javac(d, n, timeout)
             if not ok:
-                return None, log
+                bad = {}
+                for m in re.finditer(r"^B(\d+)\.java:(\d+): error: (.*)$", log, re.M):
+                    pos = where.get((int(m.group(1)), int(m.group(2))))
+                    if pos is not None:
+                        bad.setdefault(idx[pos], m.group(3))
+                return None, log, bad
             lines = _java(d, n, timeout)
             if len(lines) != len(idx):
                 raise ToolFailure(f"java oracle printed {len(lines)} lines for {len(idx)} literals")
-            return lines, ""
+            return lines, "", {}
         finally:
             shutil.rmtree(d, ignore_errors=True)
 
-    def solve(idx, budget):
+    # a literal with a raw line terminator is a compile-time error by JLS 3.10.5 (and would shift the line numbers
+    # that locate rejected literals below)
+    for i in list(todo):
+        if any(c in lits[i] for c in "\n\r"):
+            res[i] = ("reject", "raw line terminator inside the literal (JLS 3.10.5)")
+            todo.remove(i)
+
+    idx = todo
+    for _round in range(6):
         if not idx:
-            return
-        lines, log = attempt(idx)
+            break
+        lines, log, bad = attempt(idx)
         if lines is not None:
             for i, ln in zip(idx, lines):
                 res[i] = [] if ln == "-" else ("null",) if ln == "null" else [int(x, 16) for x in ln.split(".")]
-            return
-        if len(idx) == 1:
-            res[idx[0]] = ("reject", log)
-            return
-        if budget[0] <= 0:
-            for i in idx:
-                res[i] = ("unknown", "in a batch that javac rejects; not isolated")
-            return
-        budget[0] -= 1
-        h = len(idx) // 2
-        solve(idx[:h], budget)
-        solve(idx[h:], budget)
-
-    solve(todo, [40])
+            idx = []
+            break
+        if not bad:
+            if len(idx) == 1:
+                res[idx[0]] = ("reject", log[-800:])
+                idx = []
+            break
+        for i, msg in bad.items():
+            res[i] = ("reject", "javac: " + msg)
+        idx = [i for i in idx if i not in bad]
+    for i in idx:       # javac kept rejecting the batch (a grossly broken escaper): enough failing inputs are already named
+        res[i] = ("unknown", "in a batch that javac rejects; not isolated")
     return res
 
 
